@@ -243,6 +243,16 @@ pub fn run_stream(sc: &C01, tail: &[u8], flags: bool, malformed: &str) -> Outcom
 }
 
 /// the harness instances (must mirror harness/lib/c01.rs): (k, tail, fail_at, targets)
+/// outcomes pinned by the instance (255 = free)
+pub fn pins_of(name: &str) -> [u8; KMAX] {
+    match name {
+        "c01_k2_err_first" => [O_ERR, 255, 255],
+        "c01_k3_err_second" => [O_OK, O_ERR, 255],
+        "c01_k2_upgrade_first" => [O_UPGRADE, 255, 255],
+        _ => [255; KMAX],
+    }
+}
+
 pub fn instance_of(name: &str) -> Option<(usize, &'static [u8], usize, [u8; KMAX])> {
     const D: u8 = T_DISPATCH;
     const N: u8 = T_NODOT;
@@ -253,14 +263,14 @@ pub fn instance_of(name: &str) -> Option<(usize, &'static [u8], usize, [u8; KMAX
         "c01_k1_n" => (1, b"t", NF, [N, D, D]),
         "c01_k1_e" => (1, b"t", NF, [E, D, D]),
         "c01_k1_d_f0" | "c06_k1_malformed" | "c06_k1_truncated" => (1, b"t", 0, [D, D, D]),
-        "c01_k2_dd" => (2, b"t", NF, [D, D, D]),
+        "c01_k2_dd" | "c01_k2_err_first" | "c01_k2_upgrade_first" => (2, b"t", NF, [D, D, D]),
         "c01_k2_nd" => (2, b"t", NF, [N, D, D]),
         "c01_k2_dn" => (2, b"t", NF, [D, N, D]),
         "c01_k2_ed" => (2, b"t", NF, [E, D, D]),
         "c01_k2_nn" => (2, b"t", NF, [N, N, D]),
         "c01_k2_dd_f1" | "c06_k2_second_malformed" | "c06_k2_second_truncated" => (2, b"t", 1, [D, D, D]),
         "c01_k2_dd_f0" | "c06_k2_first_malformed" | "c06_k2_first_truncated" => (2, b"t", 0, [D, D, D]),
-        "c01_k3_ddd" => (3, b"", NF, [D, D, D]),
+        "c01_k3_ddd" | "c01_k3_err_second" => (3, b"", NF, [D, D, D]),
         "c01_k3_dnd" => (3, b"", NF, [D, N, D]),
         "c01_k3_ddd_f2" => (3, b"", 2, [D, D, D]),
         "c03_split_leading_dot" => (1, b"t", NF, [T_LEADING_DOT, D, D]),
@@ -289,6 +299,11 @@ pub fn instance<S: Src>(name: &str, s: &mut S) -> Outcome {
         s.assume(sc.msgs[j].target == targets[j]);
         sc.msgs[j].parse_ok = j != fail_at;
         sc.msgs[j].target = targets[j];
+        let pin = pins_of(name)[j];
+        if pin != 255 {
+            s.assume(sc.msgs[j].outcome == pin);
+            sc.msgs[j].outcome = pin;
+        }
     }
     // a truncated document (serde_json: EOF while parsing) or a syntax error
     let malformed = if name.contains("truncated") { "{\"method\":" } else { "{\"method\":}" };
@@ -306,15 +321,16 @@ pub fn two_chunks<S: Src>(cut: usize, s: &mut S) -> Outcome {
     }
     let tail = b"t";
     let input = stream_bytes(&sc, tail);
-    // the harness cuts a 5-byte stream; natively messages are longer: map the cut to the same
-    // structural position (0 start, 1 inside msg 0, 2 boundary, 3 inside msg 1, 4 boundary, 5 end)
+    // the harness cuts the 5-byte stream 'm' NUL 'm' NUL 't'; natively messages are longer: map the
+    // cut to the same structural position (0 start, 1 between the text of message 0 and its NUL,
+    // 2 message boundary, 3 between the text of message 1 and its NUL, 4 boundary, 5 end)
     let l0 = request_json(&sc.msgs[0]).len() + 1;
     let l1 = request_json(&sc.msgs[1]).len() + 1;
     let c = match cut {
         0 => 0,
-        1 => l0 / 2,
+        1 => l0 - 1,
         2 => l0,
-        3 => l0 + l1 / 2,
+        3 => l0 + l1 - 1,
         4 => l0 + l1,
         _ => input.len(),
     };
@@ -341,7 +357,7 @@ pub fn two_chunks<S: Src>(cut: usize, s: &mut S) -> Outcome {
     let bad = out_a != out_b || !ok_tail(&res_a) || !ok_tail(&res_2);
     Outcome {
         reproduced: bad,
-        role: format!("cut-{}", match cut { 0 | 5 => "at-end", 2 | 4 => "on-boundary", _ => "inside-message" }),
+        role: format!("cut-{}", match cut { 0 | 5 => "at-end", 2 | 4 => "on-boundary", _ => "before-the-nul" }),
         scenario: format!("stream {} cut at byte {}", String::from_utf8_lossy(&input).replace('\0', "\\0"), c),
         detail: format!(
             "whole: {} tail {:?} | chunked: {} tail {:?}",
